@@ -323,7 +323,8 @@ class ModelGen:
         plan = plans[self.o.mc_shape % len(plans)] if self.o.mc_shape is not None else None
         events = [M.Event(claim, 'in', reply, planned(plan[0]) if plan else formals('in')),
                   M.Event(release, 'in', M.Ref(['void']), planned(plan[1]) if plan else formals('in'))]
-        if decoys and not literal:
+        minimal = self.o.mc_shape is not None and self.o.mc_shape % 3 == 2
+        if decoys and not literal and not minimal:
             if rng.random() < 0.5 or self.o.mc_decoys == 'both':
                 events.append(M.Event('Claim', 'in', M.Ref(list(reply.ids), reply.target),
                                       formals('in')))
@@ -343,7 +344,7 @@ class ModelGen:
                 ref = self._ref(fqn, sfqn, 'subints')
                 if ref is not None:
                     sub_replies.append(ref)
-        for _ in range(rng.randint(0, 3)):
+        for _ in range(0 if minimal else rng.randint(0, 3)):
             choices = [M.Ref(['void']), M.Ref(['bool']), M.Ref(list(reply.ids), reply.target)]
             if sub_replies:
                 pick = rng.choice(sub_replies)
